@@ -512,6 +512,30 @@ class Engine:
                                 except Dead:
                                     continue
                             return outs
+                    elif isinstance(src, Int) and not src.lin.is_const() and src.bits is not None and self._one_flag_bit(src) is not None and ("c" in rv["a"] or "m" in rv["a"]):
+                        # `(x & FLAG) as u16` with one undecided input bit: a presence flag used arithmetically; decided
+                        # like the `if x & FLAG != 0` it replaces
+                        i, at = self._one_flag_bit(src)
+                        pl = rv["a"].get("c") or rv["a"].get("m")
+                        sloc, spath = self.M.resolve(st, fr, pl)
+                        outs = []
+                        for val in (0, 1):
+                            ns = st.fork()
+                            real = val if at[0] == "b" else 1 - val
+                            try:
+                                ns.set_bit(at[1], at[2], real)
+                                bs = tuple(val if j == i else x for j, x in enumerate(src.bits))
+                                self.M.write_path(ns, sloc, spath, self.int_from_bits(ns, bs, src.w, src.signed, src.tags))
+                            except Dead:
+                                continue
+                            ki = ("bit", at[1], at[2], real)
+                            if ki not in ns.key and self._want_partition(fr, b, "cond", ki):
+                                ns.key = ns.key + (ki,)
+                            try:
+                                outs.extend(self.exec_block(fr, b, ns, si))
+                            except Dead:
+                                continue
+                        return outs
                     elif isinstance(src, Int) and not src.lin.is_const() and any(isinstance(tg, tuple) and tg[0] == "discr" for tg in src.tags) and ("c" in rv["a"] or "m" in rv["a"]):
                         # `enum_value as uN` (MIR: discriminant read, then an int-to-int cast): one successor per
                         # variant, like the `match` it replaces
@@ -569,6 +593,13 @@ class Engine:
                     vs = tuple(x for x in cur.variants if x[0] == s["v"])
                     self.M.write_path(st, loc, path, Enum(cur.ty, vs or cur.variants, cur.name))
         return self.exec_term(fr, b, st, blk)
+
+    def _one_flag_bit(self, v):
+        """(position, atom) when exactly one bit of v is an undecided input bit and all others are constants."""
+        unk = [(i, x) for i, x in enumerate(v.bits) if x not in (0, 1)]
+        if len(unk) == 1 and isinstance(unk[0][1], tuple) and unk[0][1][0] in ("b", "nb") and not re.match(r"^(phi\(|hv\d|b2i#|bop#|cmp#|fcmp#|ovf#|ret#|u#|t#)", str(unk[0][1][1])):
+            return unk[0]
+        return None
 
     # ------------------------------------------------------------------ operands
     def eval_operand(self, fr, st, o):
